@@ -531,3 +531,10 @@ def main(chk: Check) -> None:
     chk.explore("empty", _empty_case, run_empty, quick=300, thorough=4000)
     chk.explore("grammar", _grammar_case(), run_grammar, quick=2500, thorough=60000)
     chk.explore("arbitrary", _arbitrary_case, run_arbitrary, quick=1500, thorough=40000)
+    # coverage-guided stage (thorough, shard 0 only): libFuzzer mutates the attacker text after a trusted first element
+    found: list[dict[str, Any]] = []
+    if chk.replay is None and not chk.quick and not chk.violations and chk.shard_index == 0:
+        from lib import atheris_stage
+
+        found = atheris_stage.run_stage(chk, "lib.c43_fuzz", runs=300_000, max_len=96)
+    chk.enumerate("atheris", found * chk.shard_count, run_grammar)
